@@ -2,7 +2,8 @@
 
 `stage(run)` is called by checks/C13.py after its own stages (a),(e).  Scenarios of the `weights` alphabet
 (checks/weights_common.py: weighted pools, limits, minValues with both policies, a reduced scheduling.MaxInstanceTypes, daemonsets
-selected per instance type, startup taints, stale hash annotations, several pods per NodeClaim) - TLC-enumerated from Weights.tla,
+selected per instance type, startup taints, stale hash annotations, several pods per NodeClaim; minValues floors on arch / gen / zone
+with more compatible types than the cap and provider orders unrelated to the price order: cells `cell/truncate-floor/*`) - TLC-enumerated from Weights.tla,
 hand-made cells and seeded explorer scenarios - run through the real Provisioner.Schedule + CreateNodeClaims; the stored NodeClaim
 (Created event, read back through the API) is judged next to the in-memory Results and the scheduler's option list (hook H1
 `final`) by Weights_Trace.tla:
@@ -13,7 +14,7 @@ hand-made cells and seeded explorer scenarios - run through the real Provisioner
   G_C13_Template              (d) labels (template labels, nodepool, nodeclass), taints, startup taints, hash of the pool as stored
                                   NOW + hash version, no simulation-only key among labels / requirements
 
-The closed model behind these guards is Weights.tla (invariants Inv_C13_*; spec mutations truncMin, ovhPerPod, ovhNone, staleHash,
+The closed model behind these guards is Weights.tla (invariants Inv_C13_*; spec mutations truncMin, truncMinOrder, ovhPerPod, ovhNone, staleHash,
 simKeys, noStartup rejected in checks/C19.py's model stage and again here)."""
 import os
 import random
